@@ -300,7 +300,8 @@ func (g *c16Gen) genInt() *c16Val {
 var c16EdgeFloats = []string{"1.0", "-0.0", "0.0", "1e5", "1E5", "1e+5", "100000.0", "999999.0", "1000000.0", "1e6",
 	"1.5", "-2.5e-3", "1e21", "1E+21", "1e-7", "5e-324", "1.7976931348623157e308", "2.2250738585072014E-308",
 	"0.1", "0.30000000000000004", "123456.789", "1234567.0", "9007199254740993.0", "1e22", "3.14159e0",
-	"0.000001", "0.0001", "0.00001", "12345678901234567890.0", "-1.0e0", "4.0E-2", "0.1000000000000000055511151231257827"}
+	"0.000001", "0.0001", "0.00001", "12345678901234567890.0", "9223372036854775808.0", "-9223372036854775808.0",
+	"4611686018427387904.0", "1e18", "1e19", "9223372036854774784.0", "1234567.0", "1e6", "-1.0e0", "4.0E-2", "0.1000000000000000055511151231257827"}
 
 func (g *c16Gen) genFloat() *c16Val {
 	switch g.c.Rng.Intn(5) {
@@ -562,42 +563,44 @@ func (v *c16Val) depth() int {
 
 // ---------------------------------------------------------------- canonical trees
 
+// c16FltTok: the exact value of a finite float64 as ± m·2^e with m odd
+// (m = 0, e = 0 for ±0) — the model's Flt.
 func c16FltTok(f float64) string {
 	if math.IsInf(f, 0) || math.IsNaN(f) {
 		return "dNaN"
 	}
-	s := strconv.FormatFloat(f, 'e', -1, 64) // d.ddde±xx
 	neg := "0"
-	if s[0] == '-' {
+	if math.Signbit(f) {
 		neg = "1"
-		s = s[1:]
 	}
-	ei := strings.IndexByte(s, 'e')
-	mant, exps := s[:ei], s[ei+1:]
-	exp, _ := strconv.Atoi(exps)
-	digits := strings.Replace(mant, ".", "", 1)
-	exp -= len(digits) - 1
-	for len(digits) > 1 && digits[len(digits)-1] == '0' {
-		digits = digits[:len(digits)-1]
-		exp++
+	bits := math.Float64bits(f)
+	frac := bits & (1<<52 - 1)
+	bexp := int((bits >> 52) & 0x7ff)
+	var m uint64
+	var e int
+	if bexp == 0 {
+		m, e = frac, -1074
+	} else {
+		m, e = frac|1<<52, bexp-1075
 	}
-	digits = strings.TrimLeft(digits, "0")
-	if digits == "" {
-		digits, exp = "0", 0
+	if m == 0 {
+		return "d" + neg + ":0:0"
 	}
-	return "d" + neg + ":" + digits + ":" + strconv.Itoa(exp)
+	for m&1 == 0 {
+		m >>= 1
+		e++
+	}
+	return "d" + neg + ":" + strconv.FormatUint(m, 10) + ":" + strconv.Itoa(e)
 }
 
-// the 'g' form of the float has integer syntax (what the real formatter emits)
-func c16PrintsAsInt(f float64) (string, bool) {
-	s := strconv.FormatFloat(f, 'g', -1, 64)
-	if strings.ContainsAny(s, ".eEIN") {
+// c16JSONAsInt restates (independently of the code under test) which floats
+// the invocation JSON carries as integers: integral and within int64; the
+// exact integer is returned.  The sign of zero is not represented.
+func c16JSONAsInt(f float64) (string, bool) {
+	if f != math.Trunc(f) || f < -9223372036854775808.0 || f >= 9223372036854775808.0 {
 		return "", false
 	}
-	n, ok := new(big.Int).SetString(s, 10)
-	if !ok {
-		return "", false
-	}
+	n, _ := new(big.Float).SetFloat64(f).Int(nil)
 	return n.String(), true
 }
 
@@ -624,7 +627,7 @@ func c16Canon(v interface{}, norm bool, sb *strings.Builder) {
 			return
 		}
 		if norm {
-			if is, ok := c16PrintsAsInt(f); ok {
+			if is, ok := c16JSONAsInt(f); ok {
 				sb.WriteString("i" + is + " ")
 				return
 			}
@@ -1427,6 +1430,63 @@ func c16HasNestedCollectionInStruct(v *c16Val, inStruct bool) bool {
 	return false
 }
 
+// negZero: does the sign of a floating-point zero survive?  (-0.0 and 0 are
+// the same real number; every other comparison in this harness identifies
+// them, this probe is the one place that looks at the sign.)
+func (x *c16Runner) negZero() {
+	r := x.r
+	dir := filepath.Join(x.c.Scratch, "negzero")
+	os.MkdirAll(dir, 0o755)
+	decl := "stage ST(\n    in  float   f,\n    in  float[] fs,\n    out int     o,\n    src comp    \"x\",\n)\n"
+	os.WriteFile(filepath.Join(dir, "decl.mro"), []byte(decl), 0o644)
+	src := "@include \"decl.mro\"\n\ncall ST(\n    f  = -0.0,\n    fs = [-0.0],\n)\n"
+	neg := func(raw json.RawMessage) bool {
+		t := strings.Trim(string(raw), "[] \n")
+		f, err := strconv.ParseFloat(t, 64)
+		return err == nil && f == 0 && math.Signbit(f)
+	}
+	obs := map[string]string{}
+	lost := false
+	r.count("negzero", true)
+	if pan := c16Recover(func() {
+		d, err := core.InvocationDataFromSource([]byte(src), []string{dir})
+		if err != nil {
+			obs["text->json"] = "error: " + err.Error()
+			return
+		}
+		obs["text->json"] = fmt.Sprintf("f=%s fs=%s", d.Args["f"], d.Args["fs"])
+		if !neg(d.Args["f"]) || !neg(d.Args["fs"]) {
+			lost = true
+		}
+		inv := core.InvocationData{Call: "ST", Include: "decl.mro",
+			Args: core.LazyArgumentMap{"f": json.RawMessage("-0.0"), "fs": json.RawMessage("[-0.0]")}}
+		s2, err := inv.BuildCallSource([]string{dir})
+		if err != nil {
+			obs["json->text"] = "error: " + err.Error()
+			return
+		}
+		obs["json->text"] = s2
+		d2, err := core.InvocationDataFromSource([]byte(s2), []string{dir})
+		if err != nil {
+			obs["json->text->json"] = "error: " + err.Error()
+			return
+		}
+		obs["json->text->json"] = fmt.Sprintf("f=%s fs=%s", d2.Args["f"], d2.Args["fs"])
+		if !neg(d2.Args["f"]) || !neg(d2.Args["fs"]) {
+			lost = true
+		}
+	}); pan != nil {
+		r.violate(Violation{Kind: "property", Key: "C16:negative-zero:panic", What: fmt.Sprint(pan), Input: src})
+		return
+	}
+	if lost {
+		r.violate(Violation{Kind: "property", Key: "C16:negative-zero",
+			What:  "the float argument -0.0 comes back as 0: the sign of zero does not survive MRO text <-> invocation JSON",
+			Input: map[string]interface{}{"decl.mro": decl, "call_mro": src, "invocation_args": `{"f": -0.0, "fs": [-0.0]}`},
+			Impl:  obs, Expect: "-0.0 (or any JSON number that decodes to negative zero)"})
+	}
+}
+
 // fixedF: the minimal shape of finding C16-N4 (struct literal with one member
 // bound to a reference, resolved for a fork): run first on every run.
 func (x *c16Runner) fixedF() {
@@ -1576,27 +1636,66 @@ func (x *c16Runner) floats(n int) {
 		case 1:
 			f = float64(c.Rng.Intn(4000000)-2000000) / []float64{1, 1, 10, 100}[c.Rng.Intn(4)]
 		case 2:
-			f = math.Pow(10, float64(c.Rng.Intn(40)-10)) * float64(1+c.Rng.Intn(99))
+			if c.Rng.Intn(2) == 0 {
+				// integral values around the int64 / 2^53 / 10^6 boundaries
+				f = []float64{9223372036854775808.0, -9223372036854775808.0, 9223372036854774784.0,
+					-9223372036854777856.0, 4611686018427387904.0, 9007199254740992.0, 9007199254740994.0,
+					1e6, 999999, -1e6, 1e18, 1e19, 1e15, math.Copysign(0, -1), 0}[c.Rng.Intn(15)]
+				if c.Rng.Intn(3) == 0 {
+					f = math.Nextafter(f, math.Inf(1-2*c.Rng.Intn(2)))
+				}
+			} else {
+				f = math.Pow(10, float64(c.Rng.Intn(40)-10)) * float64(1+c.Rng.Intn(99))
+			}
 		default:
 			f = math.Float64frombits(c.Rng.Uint64())
 		}
 		if math.IsInf(f, 0) || math.IsNaN(f) {
 			continue
 		}
-		// what the real code does: format the FloatExp, read the text back
+		// what the real code does, text leg: format the FloatExp, read the text back
 		text := syntax.FormatExp(&syntax.FloatExp{Value: f}, "")
 		back, err := p.ParseValExp([]byte(text))
-		impl := "error"
+		exact, _ := new(big.Float).SetFloat64(f).Int(nil)
+		isInt := f == math.Trunc(f)
+		impl := "text=error"
 		if err == nil {
 			switch b := back.(type) {
 			case *syntax.IntExp:
-				impl = "int " + strconv.FormatInt(b.Value, 10)
+				impl = "text=int " + strconv.FormatInt(b.Value, 10)
+				if !isInt || big.NewInt(b.Value).Cmp(exact) != 0 {
+					r.violate(Violation{Kind: "property", Key: "C16:float-text-roundtrip",
+						What: "a float changes value through format -> parse", Input: text, Impl: b.Value, Expect: f})
+				}
 			case *syntax.FloatExp:
-				impl = "float"
+				impl = "text=float"
 				if b.Value != f {
 					r.violate(Violation{Kind: "property", Key: "C16:float-text-roundtrip",
 						What: "a float changes value through format -> parse", Input: text, Impl: b.Value, Expect: f})
 				}
+			}
+		}
+		// JSON leg: MarshalJSON and EncodeJSON, token class by syntax, value exact
+		mj, _ := (&syntax.FloatExp{Value: f}).MarshalJSON()
+		var eb bytes.Buffer
+		(&syntax.FloatExp{Value: f}).EncodeJSON(&eb)
+		if !bytes.Equal(mj, eb.Bytes()) {
+			r.violate(Violation{Kind: "property", Key: "C16:float-json-marshal-vs-encode",
+				What: "FloatExp.MarshalJSON and EncodeJSON disagree", Input: f, Impl: string(mj), Expect: eb.String()})
+		}
+		if strings.ContainsAny(string(mj), ".eE") {
+			impl += " json=float"
+			if g, err := strconv.ParseFloat(string(mj), 64); err != nil || g != f {
+				r.violate(Violation{Kind: "property", Key: "C16:float-json-value",
+					What: "a float changes value through MarshalJSON", Input: f, Impl: string(mj)})
+			}
+		} else {
+			n, ok := new(big.Int).SetString(string(mj), 10)
+			impl += " json=int " + string(mj)
+			if !ok || !isInt || n.Cmp(exact) != 0 {
+				r.violate(Violation{Kind: "property", Key: "C16:float-json-value",
+					What: "an integral float is marshalled as an integer of a different value", Input: f, Impl: string(mj),
+					Expect: exact.String()})
 			}
 		}
 		ff, tt := f, text
@@ -1604,9 +1703,9 @@ func (x *c16Runner) floats(n int) {
 			r.count("flt:"+tt, true)
 			if rep != impl {
 				r.violate(Violation{Kind: "correspondence", Key: "C16:float-class-model-mismatch",
-					What:  "token class of a formatted float (integer syntax or not) differs from the model's printsAsInt/intVal",
-					Input: map[string]interface{}{"float": ff, "formatted": tt}, Impl: impl, Model: rep,
-					Broken: "correspondence C16.fltint (Flt.printsAsInt)"})
+					What:  "token class / integer value of a printed float (MRO text and JSON) differs from the model's textAsInt / jsonAsInt / intVal",
+					Input: map[string]interface{}{"float": ff, "formatted": tt, "json": string(mj)}, Impl: impl, Model: rep,
+					Broken: "correspondence C16.fltint (Flt.textAsInt, Flt.jsonAsInt)"})
 			}
 		})
 	}
@@ -1627,10 +1726,11 @@ func runC16(c *Ctx) {
 		"vs Lean buildBinding/encodeArg/printable; B) hand-written MRO text (struct literals, MRO-only escapes, trailing " +
 		"commas)->data->text'->data' + Lean encode/wt on the real parser's expressions; F) BuildCallSource on " +
 		"resolver-shaped argument trees (pure core of Fork.writeInvocation) compiles and carries the arguments; float " +
-		"token class vs Lean printsAsInt. non-trivial = value depth>=2 or split or escaped string; distinct = distinct input text"
+		"token class and exact value (MRO printer, JSON printer) vs Lean textAsInt/jsonAsInt/intVal; negative-zero probe. non-trivial = value depth>=2 or split or escaped string; distinct = distinct input text"
 	x := &c16Runner{c: c, r: r}
 	x.corpus()
 	x.fixedF()
+	x.negZero()
 
 	nsig, per := 160, 16
 	nflt := 20000
